@@ -42,6 +42,10 @@ def kinds_for(abi="wasm32"):
         "iarr2": ("int {n}[2]", {"k": "arr", "el": prim(i_, i_, True, "i"), "n": 2}, "int[2]"),
         "larr2": ("long {n}[2]", {"k": "arr", "el": prim(l_, l_, True, "i"), "n": 2}, "long[2]"),
         "parr2": ("int* {n}[2]", {"k": "arr", "el": prim(p_, p_, False, "p"), "n": 2}, "int*[2]"),
+        # multi-dimensional arrays: element width kept (char, int on wasm32/lp64u) or changed (long, int on lp16)
+        "carr2x2": ("char {n}[2][2]", {"k": "arr", "el": {"k": "arr", "el": prim(1, 1, True, "i"), "n": 2}, "n": 2}, "char[2][2]"),
+        "iarr2x2": ("int {n}[2][2]", {"k": "arr", "el": {"k": "arr", "el": prim(i_, i_, True, "i"), "n": 2}, "n": 2}, "int[2][2]"),
+        "larr2x2": ("long {n}[2][2]", {"k": "arr", "el": {"k": "arr", "el": prim(l_, l_, True, "i"), "n": 2}, "n": 2}, "long[2][2]"),
         "inner": ("GenInner {n}", {"k": "struct", "fs": [prim(1, 1, True, "i"), prim(l_, l_, True, "i")]}, "GenInner"),
     }
 
@@ -79,6 +83,9 @@ def slots_of(kind, fname):
         return [("%s[%d]" % (fname, i), "long") for i in range(2)]
     if kind == "parr2":
         return [("%s[%d]" % (fname, i), "ptr") for i in range(2)]
+    if kind in ("carr2x2", "iarr2x2", "larr2x2"):
+        sk = {"carr2x2": "char", "iarr2x2": "int", "larr2x2": "long"}[kind]
+        return [("%s[%d][%d]" % (fname, i, j), sk) for i in range(2) for j in range(2)]
     if kind == "inner":
         return [("%s.a" % fname, "char"), ("%s.b" % fname, "long")]
     return [(fname, kind)]
